@@ -168,8 +168,6 @@ def run_one(args):
         ok, err = compiles(d, srcs if srcs else allsrc)
         if not ok:
             return {'id': mid, 'pid': pid, 'status': 'nocompile', 'why': err}
-        import props
-        props._cache.clear()
         rep = MAIN.run_property(pid, 'quick', repo=d, quiet=True)
         import report as REPORT
         known = {f['key'] for f in REPORT.load_known()[0] if f['property'] == pid}
